@@ -1,10 +1,10 @@
 // c19: correspondence harness for property C19 (unambiguous store keys; decoders never panic or hang).
-//  - keys: lib.JoinLenPrefix / lib.DecodeLengthPrefixed and every key constructor of fsm/key.go are run on generated
-//    component tuples (all lengths 0..255 and beyond, embedded length bytes, 0xFF runs) and compared in Coq with
-//    model/Keys.v (join, decode, encode_key);
-//  - decoders: structured mutations of valid encodings and random bytes are fed to the block / transaction /
-//    certificate / consensus-message / peer-message decoders and the stateless checks that follow them, under recover
-//    and a watchdog; a panic or hang is recorded as a direct violation.
+//   - keys: lib.JoinLenPrefix / lib.DecodeLengthPrefixed and every key constructor of fsm/key.go are run on generated
+//     component tuples (all lengths 0..255 and beyond, embedded length bytes, 0xFF runs) and compared in Coq with
+//     model/Keys.v (join, decode, encode_key);
+//   - decoders: structured mutations of valid encodings and random bytes are fed to the block / transaction /
+//     certificate / consensus-message / peer-message decoders and the stateless checks that follow them, under recover
+//     and a watchdog; a panic or hang is recorded as a direct violation.
 package main
 
 import (
